@@ -443,23 +443,32 @@ def posix_check(case, obs, stop_at_crash=True):
 # POSIX tree as the reference state).  Each returns True when the history
 # contains the pattern anywhere on a host.
 
-def history_features(case):
-    """Set of feature names present in the history (per whole case)."""
+def history_features(case, obs=None, upto=None):
+    """Set of feature names present in the history (per whole case).  With crashes
+    in the history the reference tree after a crash is the durable image, which
+    depends on the recorded sync coins / torn draws in [obs]."""
     n = case["cfg"].get("nhosts", 1)
-    hosts = [Posix() for _ in range(n)]
+    durs = [Durable(case["cfg"].get("block_size")) for _ in range(n)]
+    decs = (obs or {}).get("decisions") or [[] for _ in case["steps"]]
     feats = set()
     # per host: set of inodes whose length was ever reduced while ... (see ShrinkExtend)
     shrunk = [dict() for _ in range(n)]       # ino -> min length since last full sync
     open_paths = [dict() for _ in range(n)]   # slot -> path the handle was opened with
     gone = [set() for _ in range(n)]          # paths at which a file was removed / renamed away / replaced
-    for st in case["steps"]:
+    for si, st in enumerate(case["steps"]):
+        if upto is not None and si > upto:
+            break
         name = st[0].split("@")[0]
-        if name == "tick":
+        if name in ("tick", "dump"):
             continue
         h = st[1]
-        fs = hosts[h]
+        fs = durs[h].fs
+        hosts = [d.fs for d in durs]
         if name == "crash":
             feats.add("crash")
+            durs[h].crash(decs[si] if si < len(decs) else [])
+            gone[h].clear()
+            open_paths[h].clear()
             continue
         if name == "open":
             flags = st[4].replace("k", "")
@@ -511,6 +520,8 @@ def history_features(case):
             feats.add("RemoveDir")
         if name in ("mkdir", "mkdir_all") and fs.kind(st[2]) is None:
             feats.add("Mkdir")
+        if name in ("rmdir", "rmdir_all", "unlink", "rename", "open", "spit", "mkdir") and "/" in st[2:4]:
+            feats.add("RootOp")
         # a handle whose path no longer names its inode
         for slot, hd in fs.handles.items():
             p = open_paths[h].get(slot)
@@ -522,7 +533,9 @@ def history_features(case):
                 if r is None or r[0] != "file" or r[1] != hd["ino"]:
                     if name in ("write_at", "read_at", "write", "read", "seek", "set_len", "flen", "sync_all", "sync_data") and st[2] == slot:
                         feats.add("StaleHandle")
-        spec_step(hosts, st)
+        wr = durs[h].before(st)
+        exp = spec_step(hosts, st)
+        durs[h].after(st, exp, decs[si] if si < len(decs) else [], wr)
         if name == "open" and fs.h(st[2]) is not None:
             open_paths[h][st[2]] = st[3]
     return feats
@@ -554,9 +567,13 @@ class Gen:
         self.stale = stale
         self.opened = [dict() for _ in range(nhosts)]   # slot -> path
         self.tokio, self.syncs, self.crash = tokio, syncs, crash
-        self.hosts = [Posix() for _ in range(nhosts)]
+        self.dur = [Durable() for _ in range(nhosts)]
         self.steps = []
         self.setup_sync = setup_sync
+
+    @property
+    def hosts(self):
+        return [d.fs for d in self.dur]
 
     def emit(self, st):
         if self.tokio and self.rng.random() < self.tokio and st[0] not in ("stat", "exists", "readdir", "dump", "crash", "tick", "close"):
@@ -579,12 +596,15 @@ class Gen:
         if name == "open":
             self.opened[st[1]][st[2]] = st[3]
         if name == "crash":
-            # the reference tree after a crash is computed by the C07 oracle; generation
-            # continues from an empty handle table and an approximate tree
-            self.hosts[st[1]].handles.clear()
+            # generation continues from the durable image (coins / torn draws unknown here)
+            self.dur[st[1]].crash([])
+            self.opened[st[1]].clear()
             return
-        if name != "dump":
-            spec_step(self.hosts, st)
+        if name not in ("dump", "tick"):
+            dh = self.dur[st[1]]
+            wr = dh.before(st)
+            exp = spec_step(self.hosts, st)
+            dh.after(st, exp, [], wr)
 
     def setup(self):
         rng = self.rng
@@ -935,3 +955,193 @@ def compare(case, obs, model, probes):
         if a != b:
             return "step %d %s: implementation %s, model %s" % (i, json.dumps(st), a, b)
     return None
+
+
+# ---------------------------------------------------------------------------
+# C07: the durable image, stated independently on top of the POSIX tree
+
+class Durable:
+    """POSIX tree of one host plus its durable shadow, as property C07 words it:
+    an entry is durable iff its parent directory was synced while the entry
+    existed (and not synced again after it was removed); a directory's own sync
+    makes its own creation durable; a file's durable contents are its contents at
+    the last data sync (sync_all, sync_data, or a background-sync coin)."""
+
+    def __init__(self, block_size=None):
+        self.fs = Posix()
+        self.dent = {"/": "dir"}     # durable entries: path -> "dir" | inode number
+        self.ddata = {}              # inode -> bytes at the last data sync
+        self.pend = []               # (inode, off, data): writes since that inode's last data sync
+        self.bs = block_size
+        self.unspecified = False     # a dangling durable subtree exists: nothing asserted any more
+
+    def data_sync(self, ino):
+        self.ddata[ino] = bytes(self.fs.data[ino])
+        self.pend = [w for w in self.pend if w[0] != ino]
+
+    def before(self, st):
+        """what the step will write, computed before it runs: (ino, off, data) or None"""
+        name = st[0].split("@")[0]
+        fs = self.fs
+        if name in ("write_at", "write"):
+            h = fs.h(st[2])
+            if h is None or not h["w"]:
+                return None
+            if name == "write_at":
+                return (h["ino"], st[3], st[4])
+            off = len(fs.data[h["ino"]]) if h["a"] else h["pos"]
+            return (h["ino"], off, st[3])
+        return None
+
+    def after(self, st, exp, dec, wr):
+        """durable bookkeeping after a successful step"""
+        name = st[0].split("@")[0]
+        fs = self.fs
+        if exp and exp[0] == "err":
+            return
+        coin = any(d[0] == "coin" and d[1] for d in dec)
+        if name in ("write_at", "write") and wr and wr[2]:
+            self.pend.append((wr[0], wr[1], list(wr[2])))
+            if coin:
+                self.data_sync(wr[0])
+        elif name == "spit":
+            ino = fs.lookup(st[2])[1]
+            if st[3]:
+                self.pend.append((ino, 0, list(st[3])))
+                if coin:
+                    self.data_sync(ino)
+        elif name == "set_len":
+            h = fs.h(st[2])
+            if h is not None and coin:
+                self.data_sync(h["ino"])
+        elif name in ("sync_all", "sync_data"):
+            h = fs.h(st[2])
+            if h is not None:
+                self.data_sync(h["ino"])
+        elif name == "sync_dir":
+            d = st[2]
+            self.dent[d] = "dir"
+            cur = fs.lookup(d)[1]
+            pre = d.rstrip("/") + "/"
+            for p in [p for p in self.dent if p != "/" and parent(p) == d]:
+                if comps(p)[-1] not in cur:
+                    del self.dent[p]
+            for nm, node in cur.items():
+                self.dent[pre + nm] = "dir" if isinstance(node, dict) else node
+
+    def crash(self, dec):
+        """-> (problem text or None); replaces the tree by the durable image"""
+        draws = [d for d in dec if d[0] == "torn"]
+        content = {}
+        for p, e in self.dent.items():
+            if e != "dir":
+                content[e] = bytearray(self.ddata.get(e, b""))
+        problem = None
+        di = 0
+        by_ino = {e: p for p, e in self.dent.items() if e != "dir"}
+        if self.bs:
+            for ino, off, data in self.pend:
+                if ino in by_ino and data:
+                    total = -(-len(data) // self.bs)
+                    if di >= len(draws):
+                        problem = "crash consumed %d torn-write draws, expected more (pending write to durable %s)" % (len(draws), by_ino[ino])
+                        break
+                    _, tot, k = draws[di]
+                    di += 1
+                    if tot != total or k > total:
+                        problem = "torn-write draw %s does not fit a %d-byte write with block size %d" % (draws[di - 1], len(data), self.bs)
+                    n = min(k * self.bs, len(data))
+                    if n:
+                        b = content[ino]
+                        if len(b) < off:
+                            b.extend(bytes(off - len(b)))
+                        b[off:off + n] = bytes(data[:n])
+            if problem is None and di != len(draws):
+                problem = "crash consumed %d torn-write draws, the history explains %d" % (len(draws), di)
+        elif draws:
+            problem = "torn-write draws without a block size"
+        new = Posix()
+        new.next_ino = self.fs.next_ino
+        for p in sorted(self.dent, key=lambda q: len(comps(q))):
+            if p == "/":
+                continue
+            anc = parent(p)
+            ok = True
+            while anc != "/":
+                if self.dent.get(anc) != "dir":
+                    ok = False
+                anc = parent(anc)
+            if not ok:
+                self.unspecified = True
+                continue
+            d = new._dir(comps(p)[:-1])
+            e = self.dent[p]
+            if e == "dir":
+                d[comps(p)[-1]] = {}
+            else:
+                d[comps(p)[-1]] = e
+                new.data[e] = content[e]
+        self.fs = new
+        self.dent = {p: e for p, e in self.dent.items() if p == "/" or new.kind(p) is not None}
+        self.ddata = {e: bytes(new.data[e]) for e in self.dent.values() if e != "dir"}
+        self.pend = []
+        return problem
+
+
+def durable_check(case, obs):
+    """C07 oracle core: first deviation of the implementation from the POSIX tree
+    + durable image across crashes -> (step, text, before_first_crash) or None."""
+    n = case["cfg"].get("nhosts", 1)
+    hosts = [Durable(case["cfg"].get("block_size")) for _ in range(n)]
+    uni = case["cfg"].get("universe", UNIVERSE)
+    decs = obs.get("decisions") or [[] for _ in case["steps"]]
+    crashed = False
+    for i, st in enumerate(case["steps"]):
+        name = st[0].split("@")[0]
+        if name == "tick":
+            continue
+        dh = hosts[st[1]]
+        if dh.unspecified:
+            continue
+        got = obs["obs"][i]
+        if name == "crash":
+            crashed = True
+            pb = dh.crash(decs[i])
+            if pb:
+                return i, "step %d crash(host %d): %s" % (i, st[1], pb), False
+            continue
+        if name == "dump":
+            d = dump_matches(dh.fs.dump(uni), got)
+            if d:
+                return i, "step %d dump(host %d)%s: %s" % (i, st[1], " after crash" if crashed else "", d), not crashed
+            continue
+        wr = dh.before(st)
+        exp = spec_step([h.fs for h in hosts], st)
+        d = obs_matches(exp, got)
+        if d:
+            return i, "step %d %s%s: %s" % (i, json.dumps(st), " after crash" if crashed else "", d), not crashed
+        dh.after(st, exp, decs[i], wr)
+    return None
+
+
+# the known-finding classes (known_findings.txt), most specific first
+KNOWN_CLASSES = ["OpenOptsInvalid", "RootOp", "RenameSelf", "StaleHandle", "RenameDir", "RenameFile", "Recreate"]
+
+
+def known_class(case, obs, step):
+    """Class of a deviation first seen at [step]: the most specific known class
+    whose pattern occurs in the history up to and including that step."""
+    feats = history_features(case, obs, upto=step)
+    for k in KNOWN_CLASSES:
+        if k in feats:
+            return k
+    return None
+
+
+def gen_safe(rng, **kw):
+    """A history outside every known class (rejection sampling)."""
+    while True:
+        c = gen_history(rng, 3, **kw)
+        if not (history_features(c) & set(KNOWN_CLASSES)):
+            c["flavour"] = c["flavour"].replace("F3", "safe")
+            return c
